@@ -3436,3 +3436,92 @@ def check_comparison_impls(ck, rule, prog, file_rx, floor=0):
     if floor:
         ck.floor(rule, "comparison impls of the record types", n, floor, soft=True)
     return n
+
+
+# =====================================================================================================
+# CTORS: `T::new()` and `T::default()` build the same value
+# =====================================================================================================
+def ctor_value(prog, body, args=None, depth=0):
+    """the value a constructor-like body returns, as {field: value}; value = ('int', n) | ('float', x) | ('bool', b) | ('zero', type) for
+    `<prim as Default>::default()` | ('param', i) | ('ctor', type path) for another constructor call | None (not read).  `args` = values of
+    the parameters (a caller's constants).  A body that returns the result of another constructor of the same type is followed (depth 3)."""
+    from prov import Prov
+    if depth > 3:
+        return None
+    pv = Prov(prog, inline=False)
+    defs = pv.defs(body)
+
+    def val_of(op, seen=()):
+        if op.kind == "const":
+            c = op.const
+            if c.get("int") is not None:
+                return ("int", c["int"])
+            fv = op.float_value()
+            if fv is not None:
+                return ("float", fv)
+            if c.get("ty") == "bool":
+                return ("bool", c.get("val") == "true")
+            return ("const", c.get("def") or c.get("val"))
+        if op.place is None or not op.place.is_local():
+            return None
+        l = op.place.local
+        if l in seen:
+            return None
+        if 1 <= l <= body.nargs:
+            return args[l - 1] if args and l - 1 < len(args) else ("param", l)
+        ds = defs.get(l, [])
+        if len(ds) != 1:
+            return None
+        kind, pos, d = ds[0]
+        if kind == "assign":
+            if d.rv["k"] in ("use", "cast") and "op" in d.rv:
+                return val_of(d.rv["op"], seen + (l,))
+            return None
+        r = d.callee.res or d.callee.name or ""
+        m = re.match(r"^<(u8|u16|u32|u64|usize|i8|i16|i32|i64|isize|f32|f64|bool) as std::default::Default>::default$", r)
+        if m:
+            return {"bool": ("bool", False), "f32": ("float", 0.0), "f64": ("float", 0.0)}.get(m.group(1), ("int", 0))
+        if r.endswith("::default") or r.endswith("::new"):
+            return ("ctor", re.sub(r"<[^<>]*>", "", r))
+        return None
+    # an aggregate of the type assigned to the result
+    for pos, st in body.stmts():
+        if st.k == "assign" and st.place.is_local() and st.place.local == 0 and st.rv["k"] == "agg" and st.rv.get("agg") == "adt":
+            return {f: val_of(o) for f, o in zip(st.rv.get("fields", []), st.rv.get("ops", []))}
+    # ... or the result of one other constructor of the crate
+    rets = [(kind, d) for kind, pos, d in defs.get(0, [])]
+    if len(rets) == 1 and rets[0][0] == "call":
+        t = rets[0][1]
+        tg = prog.bodies.get(t.callee.res or "")
+        if tg is not None and tg.kind in ("Fn", "AssocFn"):
+            return ctor_value(prog, tg, [val_of(a) for a in t.args], depth + 1)
+    return None
+
+
+def check_ctor_agreement(ck, rule, prog, file_rx, floor=0):
+    """for every crate type in `file_rx` that has BOTH an argument-less `new()` and a `Default` impl: the two build the same value, field by
+    field.  (A struct that gains a field keeps compiling under `#[derive(Default)]` - with the field's zero - while `new()` is updated by hand.)"""
+    n = 0
+    news = {}
+    dfl = {}
+    for b in prog.production():
+        if b.kind != "AssocFn" or not b.impl_self or not re.search(file_rx, b.file or ""):
+            continue
+        adt = b.impl_self.get("adt")
+        if b.name == "new" and b.nargs == 0 and not b.impl_trait:
+            news[adt] = b
+        if b.name == "default" and b.impl_trait == "std::default::Default":
+            dfl[adt] = b
+    for adt in sorted(set(news) & set(dfl)):
+        a, d = ctor_value(prog, news[adt]), ctor_value(prog, dfl[adt])
+        short = (adt or "?").rsplit("::", 1)[-1]
+        if a is None or d is None or any(v is None for v in list(a.values()) + list(d.values())):
+            ck.undecided(rule, "new~default/%s" % short, "%s::new() and %s::default(): the value of one of them is not read (%s / %s)" % (short, short, a, d), where=news[adt].where())
+            continue
+        n += 1
+        diff = sorted(f for f in set(a) | set(d) if a.get(f) != d.get(f))
+        ck.ob(rule, "new~default/%s" % short, not diff, "%s::new() and %s::default() %s" % (short, short, "build the same value (%d field(s))" % len(a) if not diff else
+              "DIFFER in `%s`: new() has %s, default() has %s - two ways of constructing `the` default object that behave differently" % (diff[0], a.get(diff[0]), d.get(diff[0]))), where=dfl[adt].where())
+    if floor:
+        ck.floor(rule, "types with new() and Default", n, floor, soft=True)
+    return n
